@@ -34,7 +34,7 @@ pub fn mask_key_spaces(text: &str) -> String {
     let bytes = text.as_bytes();
     let mut output = String::with_capacity(text.len());
     let mut seen: Vec<String> = Vec::new();
-    let mut ordinal = |space: &str, seen: &mut Vec<String>| -> usize {
+    let ordinal = |space: &str, seen: &mut Vec<String>| -> usize {
         match seen.iter().position(|s| s == space) {
             | Some(index) => index,
             | None => {
@@ -261,6 +261,11 @@ impl Observer<'_> {
                 format!("PANIC {}", mask_key_spaces(&self.unprefix(&message)))
             }
         }
+    }
+
+    /// As [`Self::ask`], but unwinds (salsa cancellation, panics) are left to the caller.
+    pub fn ask_raw(&self, session: &CompilerSession, root: &Path, query: &Query) -> String {
+        self.ask_inner(session, root, query)
     }
 
     fn ask_inner(&self, session: &CompilerSession, root: &Path, query: &Query) -> String {
